@@ -25,6 +25,8 @@ Hypothesis Sring : is_ring S.
 Hypothesis Hord : ord_laws S leb.
 Hypothesis Hz : zinj_laws S.
 Add Ring Sr : Sring.
+(* every lemma of the section takes the same six section variables, used or not *)
+#[local] Set Default Proof Using "S leb sq Sring Hord Hz".
 
 Let refl := leb_refl S leb Hord.
 Let trans := leb_trans S leb Hord.
